@@ -62,4 +62,22 @@ theorem filename_guard_eq (fn : List Nat) (f : Nat) (h : filenameOf fn = some f)
 theorem recon_loop_stages_eq : recon_loop_stages = expectedLoopStages := rfl
 theorem process_stages_eq : process_stages = expectedProcessStages := rfl
 
+/-! ### phase 2: the plumbing around the loop, as read from the source -/
+
+/-- `Engine.predict`: sequential batch sampler without a volume limit → `build_loader` → the list of what
+`reconstruct_volumes(…, add_target=False, crop=crop)` yields (`Recon.predictFull`) -/
+theorem predict_facts_eq : predict_facts = expectedPredictFacts := rfl
+/-- `build_loader`: the batch sampler is handed to `DataLoader` unchanged; no shuffling, no own sampler,
+no `drop_last` -/
+theorem loader_facts_eq : loader_facts = expectedLoaderFacts := rfl
+/-- `build_batch_sampler`: `"random"` → concat sampler (list of datasets required), `"sequential"` →
+`BatchVolumeSampler(DistributedSequentialSampler(dataset, **kwargs))`, else `ValueError`
+(`Recon.buildBatchSampler`) -/
+theorem sampler_dispatch_eq : sampler_dispatch = expectedSamplerDispatch := rfl
+/-- `_compute_resolution` and its call with `key=crop` and the batch's `reconstruction_size`
+(`Recon.computeResolution`) -/
+theorem resolution_facts_eq : resolution_facts = expectedResolutionFacts := rfl
+/-- `write_output_to_h5`: basename, channel 0 as float32, mode "w", key (`Recon.writeOutput`) -/
+theorem writer_facts_eq : writer_facts = expectedWriterFacts := rfl
+
 end DirectVerif.Bridge.C14
